@@ -12,12 +12,24 @@ install() is idempotent and only adds attributes that are missing.
 """
 
 
+_SEQ = [0]
+
+
 class _Ref(object):
+  """hashable reference to a tensor.  The hash is the order of first use (not the object address), so that sets and dictionaries
+  of references - which qgraph iterates - have the same order on every run"""
+
   def __init__(self, t):
     self._t = t
+    if not hasattr(t, "_vf_ref_seq"):
+      _SEQ[0] += 1
+      try:
+        t._vf_ref_seq = _SEQ[0]
+      except Exception:  # pylint: disable=broad-except
+        pass
 
   def __hash__(self):
-    return id(self._t)
+    return getattr(self._t, "_vf_ref_seq", id(self._t))
 
   def __eq__(self, other):
     return isinstance(other, _Ref) and other._t is self._t
